@@ -450,6 +450,45 @@ type foundViolation struct {
 	seedOnly bool
 	orig     int
 	runs     int
+	raw      bool // tape not minimised yet
+	nondet   bool
+}
+
+// shrinkOne minimises the tape of fv in a worker process of its own.
+func shrinkOne(p *propCfg, b *build, fv *foundViolation, seed uint64, tier string, idx int) {
+	rf := &replayFile{Property: p.id, Seed: seed, Case: fv.caseIdx, Tier: tier, Fingerprint: fv.v.Fingerprint, Tape: fv.tape}
+	in := filepath.Join(b.scratch, fmt.Sprintf("shrink-in-%d.json", idx))
+	out := filepath.Join(b.scratch, fmt.Sprintf("shrink-out-%d.jsonl", idx))
+	data, _ := json.Marshal(rf)
+	os.WriteFile(in, data, 0o644)
+	cmd := exec.Command(b.worker, workerArgs(p, "-shrink", in, "-out", out, "-seed", strconv.FormatUint(seed, 10), "-tier", tier)...)
+	cmd.Env = workerEnv(p, b)
+	cmd.Dir = b.scratch
+	done := make(chan error, 1)
+	if err := cmd.Start(); err != nil {
+		return
+	}
+	go func() { done <- cmd.Wait() }()
+	select {
+	case <-done:
+	case <-time.After(5 * time.Minute):
+		cmd.Process.Kill()
+		<-done
+	}
+	for _, l := range readLines(out) {
+		switch l.K {
+		case "viol":
+			fv.v = *l.V
+			fv.tape = l.Tape
+			fv.orig = l.Orig
+			fv.runs = l.Runs
+			fv.raw = false
+		case "nondeterministic":
+			fv.nondet = true
+		}
+	}
+	os.Remove(in)
+	os.Remove(out)
 }
 
 // raceFingerprint extracts the two innermost repository functions of a race
@@ -564,8 +603,8 @@ func runBatch(p *propCfg, b *build, seed uint64, tier string, total uint64, proc
 				for k, n := range l.Dups {
 					bt.dups[k] += n
 				}
-			case "viol":
-				bt.viols = append(bt.viols, &foundViolation{caseIdx: l.Case, v: *l.V, tape: l.Tape, orig: l.Orig, runs: l.Runs})
+			case "viol", "viol-raw":
+				bt.viols = append(bt.viols, &foundViolation{caseIdx: l.Case, v: *l.V, tape: l.Tape, orig: l.Orig, runs: l.Runs, raw: l.K == "viol-raw"})
 			case "nondeterministic":
 				bt.nondet = append(bt.nondet, l)
 			}
@@ -700,7 +739,7 @@ func replayOnce(p *propCfg, b *build, rf *replayFile, idx int) (*violation, erro
 			return &v, nil
 		}
 		for _, l := range r.lines {
-			if l.K == "viol" {
+			if l.K == "viol" || l.K == "viol-raw" {
 				return l.V, nil
 			}
 		}
@@ -858,7 +897,43 @@ func main() {
 		die("replay of case %d did not reproduce its violation (%s): a source of nondeterminism escaped the simulator", l.Case, l.V.Fingerprint)
 	}
 
-	// violations: minimise crash-type ones at process level, write replay files
+	// one violation per fingerprint (lowest case index), minimised in a
+	// worker process of its own
+	sort.Slice(bt.viols, func(i, j int) bool { return bt.viols[i].caseIdx < bt.viols[j].caseIdx })
+	{
+		seen := map[string]bool{}
+		var uniq []*foundViolation
+		for _, fv := range bt.viols {
+			if seen[fv.v.Fingerprint] {
+				bt.dups[fv.v.Fingerprint]++
+				continue
+			}
+			seen[fv.v.Fingerprint] = true
+			uniq = append(uniq, fv)
+		}
+		bt.viols = uniq
+		var wg sync.WaitGroup
+		sem := make(chan struct{}, *procs)
+		for i, fv := range bt.viols {
+			if !fv.raw || fv.seedOnly || i >= 24 {
+				continue
+			}
+			wg.Add(1)
+			go func(i int, fv *foundViolation) {
+				defer wg.Done()
+				sem <- struct{}{}
+				defer func() { <-sem }()
+				shrinkOne(p, b, fv, seed, *tier, i)
+			}(i, fv)
+		}
+		wg.Wait()
+	}
+	for _, fv := range bt.viols {
+		if fv.nondet {
+			cleanup(b, *keep)
+			die("replay of case %d did not reproduce its violation (%s): a source of nondeterminism escaped the simulator", fv.caseIdx, fv.v.Fingerprint)
+		}
+	}
 	known := loadKnown()
 	os.MkdirAll(filepath.Join(verifDir, "replays"), 0o755)
 	exit := 0
